@@ -38,7 +38,7 @@ def verify(ct, reg, qname, N=None, tier="quick"):
     obls = u.run()
     bg = u.bg + num.axioms_for(u.used)
     for o in obls:
-        o.bg = bg
+        o.bg = getattr(o, "own_bg", bg)
     return u, obls
 
 
